@@ -174,7 +174,7 @@ def find_header(text, header, mask):
     """Find an item whose header (text before its `{`), whitespace-normalised and with attributes
     removed, starts with `header`. Returns (start_of_header, index_of_open_brace)."""
     want = norm_ws(header)
-    first = re.escape(want.split(' ')[0])
+    first = re.escape(re.match(r'[A-Za-z_]+', want).group(0))
     hits = []
     for m in re.finditer(r'(?<![A-Za-z0-9_])' + first + r'\b', text):
         s = m.start()
@@ -390,7 +390,7 @@ def parse_fn_directive(text):
         raise SystemExit('template error: bad @fn header: ' + head)
     d = dict(file=allparts[0], impl=' :: '.join(allparts[1:-1]), name=allparts[-1], props=None, rename=None,
              rules=[], sig=None, requires=[], ensures=[], loops={}, hints=[], ret='r', attrs=[], mode=None,
-             decreases=None, nloops=None, sigmap=[])
+             decreases=None, nloops=None, sigmap=[], callmap=[])
     sec, buf, arg = None, [], None
 
     def flush():
@@ -430,7 +430,7 @@ def parse_fn_directive(text):
 
     for ln in lines[1:]:
         s = ln.strip()
-        m = re.match(r'(props|rename|rules|sig|ret|attr|mode|decreases|nloops|sigmap):\s*(.*)$', s) if not ln.startswith((' ', '\t')) else None
+        m = re.match(r'(props|rename|rules|sig|ret|attr|mode|decreases|nloops|sigmap|callmap):\s*(.*)$', s) if not ln.startswith((' ', '\t')) else None
         if m:
             flush()
             k, v = m.group(1), m.group(2).strip()
@@ -442,9 +442,9 @@ def parse_fn_directive(text):
                 d['attrs'].append(v)
             elif k == 'nloops':
                 d['nloops'] = int(v)
-            elif k == 'sigmap':
+            elif k in ('sigmap', 'callmap'):
                 a, b = v.split('=>')
-                d['sigmap'].append((a.strip().strip('`'), b.strip().strip('`')))
+                d[k].append((a.strip().strip('`'), b.strip().strip('`')))
             else:
                 d[k] = v
             continue
@@ -521,6 +521,13 @@ def build_function(repo, d, unit, em, report, vac=False):
             raise LostAnchor('rule %s expected in %s::%s did not match' % (r, d['file'], d['name']))
         fired[r] = fired.get(r, 0) + n
     head, params, ret, where = ctx['head'], ctx['params'], ctx['ret'], ctx['where']
+    # callmap: a call path that resolves to a trait impl in /repo is redirected to the inherent copy
+    # of that same impl method extracted in this unit (trait impls are verified as inherent methods)
+    for a, b in d['callmap']:
+        if a not in body:
+            raise LostAnchor('callmap `%s` not in body of %s' % (a, d['name']))
+        fired['callmap'] = fired.get('callmap', 0) + body.count(a)
+        body = body.replace(a, b)
     for a, b in d['sigmap']:
         whole = ' || '.join([head, params, ret or '', where])
         if a not in whole:
